@@ -102,6 +102,16 @@ pub fn check(sh: &Shared, c: &Case) -> Check {
             fail!("value:unwrap-changed", "try_into_task(from_task(v)) != v");
         }
     }
+    // the TryFrom impls agree with the accessors
+    {
+        use narsese::enum_narsese::{Sentence as S, Task as K, Term as T};
+        let a = guard(|| T::try_from(v.clone()).is_ok()).map_err(|p| Failure::new("value:panic", p))?;
+        let b = guard(|| S::try_from(v.clone()).is_ok()).map_err(|p| Failure::new("value:panic", p))?;
+        let cc = guard(|| K::try_from(v.clone()).is_ok()).map_err(|p| Failure::new("value:panic", p))?;
+        if [a, b, cc] != want_is {
+            fail!("value:try_from", "Term/Sentence/Task::try_from(value) ok = {:?} for kind {want_kind}", [a, b, cc]);
+        }
+    }
     // try_into_task_compatible
     let tc = guard(|| v.clone().try_into_task_compatible()).map_err(|p| Failure::new("value:panic", p))?;
     match (&v, tc) {
